@@ -2,7 +2,7 @@
 from . import common as C, chan
 
 MODULE = "AcqVerif.Props.C01"
-DRIVERS = ["acq_chan", "acq_conc", "AcqVerif.Props.ChanThreads", "AcqVerif.Channel.Translated"]
+DRIVERS = ["acq_chan", "acq_conc", "AcqVerif.Props.ChanThreads", "AcqVerif.Channel.Refine"]
 THEOREMS = ["AcqVerif.C01.%s" % t for t in (
     "read_map_spec", "join_spec", "unmap_advances", "idx_unchanged_by_others", "consumed_is_stream",
     "bounds_le_total", "status_stays_ok")] + [
